@@ -14,7 +14,7 @@ import (
 func init() {
 	register(&propSpec{ID: "C06", Run: checkC06,
 		Explanation: "The decision table of the scan body: the delta before overrides is a φ whose incoming values are −fast_rate, −slow_rate, calcScaleUpDelta(untainted,…) and 0, selected — as equivalences relative to reaching the dispatch, modulo strictness at the band edges — by u below lower / between lower and upper / above scale-up / otherwise, with u = max(cpu%, mem%) of calcPercentUsage; every later definition is max(d,1) guarded by isScaleOnStarve / scaleOnMaxNodeAge; ScaleDown runs iff d<0 with count −d, ScaleUp iff d>0 with count d, otherwise only the reaper; ScaleUp cannot reach a taint, ScaleDown cannot reach an untaint or cloud increase; the taint count is min(rate, |U| − min_nodes) (both upper bounds entailed, value equal to one of them).",
-		RuleText:    "R1 band table (4 equivalences), R2 overrides, R3 dispatch (3 guards + completeness + counts), R4 reachability of action classes per arm, R5 exact count, R6 definition of u, R7 the taint loop performs exactly that many successful writes unless the list runs out (bounded accumulator over the whole sorted list), R8 validation admits only ordered thresholds and rates (shared with C16.R1), R9 the taint candidates are all untainted nodes, oldest first, R10 every candidate the loop reaches is attempted, R11 the starve trigger compares like with like",
+		RuleText:    "R1 band table (4 equivalences), R2 overrides, R3 dispatch (3 guards + completeness + counts), R4 reachability of action classes per arm, R5 exact count, R6 definition of u, R7 the taint loop performs exactly that many successful writes unless the list runs out (bounded accumulator over the whole sorted list), R8 validation admits only ordered thresholds and rates (shared with C16.R1), R9 the taint candidates are all untainted nodes, oldest first, R10 every candidate the loop reaches is attempted, R11 the starve trigger compares like with like, R12 the requests u is taken of: per-pod composition and the total over every listed pod (C13.R2 / R3)",
 		Assumptions: []string{"floating-point rounding of u and behaviour exactly at a threshold are not decided (the statement leaves the edges open)"}})
 	register(&propSpec{ID: "C07", Run: checkC07,
 		Explanation: "In ScaleUp the untaint step dominates the cloud step, which runs only when the untaint step returned no error; the cloud step is asked for exactly N − (#untainted) and only if that is ≥ 1; the untaint loop is a bounded accumulator over every tainted node in newest-first order (comparator cross-checked against the oldest-first one); and no function reachable from the scan body reads the cached ASG desired capacity for a decision after an AWS mutation that was not mirrored into the cache (typestate over MUT / SYNC / READ with per-function summaries).",
@@ -524,6 +524,14 @@ func checkC06(ck *Check) {
 	ck.everyCandidateAttempted("C06.R10", a.TaintLoop, "A-TAINT")
 	// R11 the starve trigger is what the documentation says: a pending pod that fits on no node
 	ck.starvePredicate("C06.R11")
+	// R12 the numerator of u: a pod's request is max(Σ containers, max init containers) + overhead
+	// whatever its phase, and the totals are sums over every listed pod / node (decided as C13.R2 / R3)
+	if sched := ck.P.SSAPkg[pkgScheduler]; sched != nil {
+		ck.podComposition("C06.R12", sched)
+	}
+	if kp := ck.P.SSAPkg[pkgK8s]; kp != nil {
+		ck.commutativeFold("C06.R12", kp.Func("CalculatePodsRequestedUsage"), "Total")
+	}
 	// R8 the statement quantifies over the triples and rate pairs validation accepts: the band switch
 	// (first true case wins) is the documented table only if 0 < lower < upper < scale-up, 0 ≤ slow ≤ fast
 	if a.Validate != nil {
@@ -577,6 +585,20 @@ func (ck *Check) exactTaintCount(rule string) {
 		// the defining cases of n: φ edges, or the return sites of a clamp helper
 		var edges []*Term
 		for _, vc := range ck.valueCases(ctx, FTrue, nArg, 0) {
+			// a return of a clamp helper that also hands back a fresh error cannot be the case in
+			// which the taint loop is reached when the call site goes on only under err == nil
+			if r, isRet := vc.pos.(*ssa.Return); isRet && r.Parent() != fn && len(r.Results) >= 2 && errorConstructor(r.Results[len(r.Results)-1]) {
+				if ex, isEx := nArg.(*ssa.Extract); isEx {
+					errT := &Term{Kind: "extract", Name: fmt.Sprint(len(r.Results) - 1), Args: []*Term{ctx.Term(ex.Tuple)}}
+					if imp, _, _ := Entails(pc, cmpFormula(token.EQL, errT, &Term{Kind: "const", Name: "nil"})); imp {
+						continue
+					}
+				}
+			}
+			// … or whose own condition contradicts the path to the call
+			if sat, err := Satisfiable(And(pc, vc.guard)); err == nil && !sat {
+				continue
+			}
 			edges = append(edges, vc.term)
 		}
 		allOK := true
